@@ -68,6 +68,29 @@ theorem kktEps_bound (eps : Rat) (P : Problem) (x : Nat → Rat) (lam : List Rat
   rw [h3] at h2
   linarith
 
+/-- Distance of an ε-KKT point from the exact optimum (given with its multipliers), in the
+    weighted norm: `Σ w_i (x_i - x*_i)^2 ≤ ε · Σ_{inequalities} slack_c(x*)`. -/
+theorem kktEps_distance (eps : Rat) (P : Problem) (hWF : WF P) (xs : Nat → Rat) (lams : List Rat)
+    (hs : KKT P xs lams) (x : Nat → Rat) (lam : List Rat) (h : KKTeps eps P x lam) :
+    sumTo P.n (fun i => P.w i * ((x i - xs i) * (x i - xs i))) ≤ eps * ineqSlackSum P xs := by
+  have hup := kktEps_bound eps P x lam hWF h xs hs.2.1
+  obtain ⟨_, _, hstat, hsc⟩ := hs
+  have hb := zip_bounds P lams hWF.2
+  have hex := cost_exact P (P.cons.zip lams) xs x hb hstat
+  have hnn : 0 ≤ listSum (fun p : Con × Rat => p.2 * (slack P.s p.1 x - slack P.s p.1 xs)) (P.cons.zip lams) := by
+    have h0 : listSum (fun _ : Con × Rat => (0 : Rat)) (P.cons.zip lams) = 0 := by
+      have := listSum_mul_left (0 : Rat) (fun _ : Con × Rat => (0 : Rat)) (P.cons.zip lams)
+      simpa using this
+    rw [← h0]
+    apply listSum_le
+    intro p hp
+    obtain ⟨c, l⟩ := p
+    have hc : c ∈ P.cons := (List.of_mem_zip hp).1
+    have hh := hsc (c, l) hp
+    have := term_bound 0 P.s c l xs x (h.2.1 c hc) (by simpa using hh.1) hh.2
+    simpa using this
+  linarith
+
 theorem kkt_iff_eps0 (P : Problem) (x : Nat → Rat) (lam : List Rat) :
     KKT P x lam ↔ KKTeps 0 P x lam := by
   unfold KKT KKTeps; simp
